@@ -2,4 +2,4 @@ From Coq Require Import Extraction ExtrOcamlBasic.
 From Cicada Require Import Base.Chars Model.History.
 Extraction Language OCaml.
 Extraction "c18_model.ml" insert_stmt select_stmt delete_sql intended_row insert_rows like
-  db_insert db_delete db_list session_run db_procs.
+  db_insert db_delete db_list session_run db_procs extend_bangbang.
